@@ -202,7 +202,7 @@ def real_run(c):
     ip = mk_ip(c)
     epsilons = np.array([[int(x) for x in row] for row in c["eps"]], dtype=int) if c.get("eps_int") else f(c["eps"])
     h = HessianMatrix(snapshot=snap, masses=masses, epsilons=epsilons, sigmas=f(c["sig"]), r_cuts=f(c["rc"]),
-                      ppp=np.array([int(p) for p in c["ppp"]]), shiftpotential=bool(c["shift"]))
+                      ppp=np.array([int(p) for p in c["ppp"]]), shiftpotential=common.truthy(c["shift"], repr(c["pos"])))
     tmp = tempfile.mkdtemp(prefix="c11-")
     try:
         out = os.path.join(tmp, "h")
